@@ -26,6 +26,11 @@ Definition race_progs : list (nat * list instr) := [(0%nat, [IWork 1]); (1%nat, 
 Definition race_sched : list act := [AStep 0; AStep 1; AStep 0; AStep 1].
 Definition race_defect : bool := m_defect (mrun (minit false 0 2 race_progs) race_sched).
 
+(** one scheduler thread is enough: the monitor thread scans while the listener's insert is in flight *)
+Definition scan_race_progs : list (nat * list instr) := [(0%nat, [IWork 1])].
+Definition scan_race_sched : list act := [AStep 0; AScan].
+Definition scan_race_defect : bool := m_defect (mrun (minit false 0 1 scan_race_progs) scan_race_sched).
+
 Definition has_ev (f : mev -> bool) (l : list mev) : bool := existsb f l.
 
 Definition judge (c : mcase) : verdict :=
@@ -36,6 +41,12 @@ Definition judge (c : mcase) : verdict :=
        v_prop := clean;
        v_tags := (if racy then ["monitor_set_unsynchronised"] else ["single_thread"]) ++ ["stress"]
                  ++ match mc_outcome c with OClean => ["clean"] | OAborted => ["aborted"] | ODiverged => ["diverged"] | OWrong => ["wrong"] end;
+       v_note := "" |}
+  else if match mc_outcome c with OClean => false | _ => true end then
+    (* the process died or hung while one scheduler thread and the monitor thread used the set *)
+    {| v_corr := scan_race_defect; v_prop := false;
+       v_tags := (if scan_race_defect then ["monitor_set_unsynchronised"] else []) ++ ["trace"]
+                 ++ match mc_outcome c with OAborted => ["aborted"] | ODiverged => ["diverged"] | _ => [] end;
        v_note := "" |}
   else
     let k := orun (mc_progs c) (mc_evs c) in
